@@ -291,6 +291,14 @@ class SmartLRUCache(LRUCache):
 #
 
 
+def _z3_string_value(ctx, ast):
+    """The characters of a Z3 string value (as_string() would return Z3's escaped rendering, e.g. \\u{0} for NUL)."""
+    n = z3.Z3_get_string_length(ctx, ast)
+    chars = (ctypes.c_uint * n)()
+    z3.Z3_get_string_contents(ctx, ast, n, chars)
+    return "".join(map(chr, chars))
+
+
 class BackendZ3(Backend):
     _split_on = ("And", "Or")
 
@@ -585,7 +593,7 @@ class BackendZ3(Backend):
         if op_name.startswith("RM_"):
             return RM(op_name)
         if op_name == "INTERNAL":
-            return claripy.StringV(z3.SeqRef(ast).as_string())
+            return claripy.StringV(_z3_string_value(ctx, ast))
         if op_name == "BitVecVal":
             bv_size = z3.Z3_get_bv_sort_size(ctx, z3_sort)
             if z3.Z3_get_numeral_uint64(ctx, ast, self._c_uint64_p):
@@ -748,7 +756,7 @@ class BackendZ3(Backend):
         if op_name == "INTERNAL":
             seq = z3.SeqRef(ast)
             if seq.is_string():
-                return seq.as_string()
+                return _z3_string_value(ctx, ast)
         raise BackendError("Unable to abstract Z3 object to primitive")
 
     def _abstract_bv_val(self, ctx, ast):
